@@ -594,8 +594,8 @@ Section RoundTrip.
   (* the compressor hands byte strings to fwrite when it is given byte strings (a typing fact of the
      C code; in the models a byte is a Z) *)
   Definition comp_writes_bytes : Prop :=
-    forall po bufs xs file,
-      write_session cst cst0 cBegin cUpdate cEnd po bufs = (FOk xs, file) ->
+    forall po bufs file,
+      write_session cst cst0 cBegin cUpdate cEnd po bufs = (FOk (map (fun b => FOk (length b)) bufs), file) ->
       bytes_ok (concat bufs) = true -> bytes_ok file = true.
 
   (* C20_roundtrip for ANY decoder meeting the contract as lz4file.c uses it *)
@@ -613,7 +613,7 @@ Section RoundTrip.
     destruct (write_session_ok cst cst0 cBegin cUpdate cEnd Hc po mw bufs Hmw Hcs) as (file & Hw & Hf).
     exists file. split; [exact Hw|]. split; [exact Hf|].
     apply (read_session_open dst dst0 dGetFrameInfo dDecompress dpos Hd file (concat bufs) Hf).
-    exact (Hcb po bufs _ file Hw Hbb).
+    exact (Hcb po bufs file Hw Hbb).
   Qed.
 
   (* ... and for the decoder of lz4frame.c (Model/FrameD.v): no assumption on the decoder left *)
